@@ -151,6 +151,7 @@ class TConst(T):
 # ------------------------------------------------------------------------------- contract
 LOWER = z3.Function("LOWER", z3.StringSort(), z3.StringSort())
 STRIP = z3.Function("STRIP", z3.StringSort(), z3.StringSort())
+REPLACE_ALL = z3.Function("REPLACE_ALL", z3.StringSort(), z3.StringSort(), z3.StringSort(), z3.StringSort())
 ISALPHA_HI = z3.Function("ISALPHA_HI", z3.IntSort(), z3.BoolSort())
 
 
@@ -258,6 +259,9 @@ class Contract:
     def strip(self, t):
         return STRIP(t)
 
+    def replace_all(self, s, a, b):
+        return REPLACE_ALL(s, a, b)
+
     def isalpha_hi(self, c):
         return ISALPHA_HI(c)
 
@@ -288,7 +292,9 @@ class Contract:
         v0 = V(eng, entry)
         v1 = V(eng, o.path)
         if self.post_facts is not None:
-            for ax in self.post_facts(v0):
+            import inspect
+            facts = self.post_facts(v0, v1) if len(inspect.signature(self.post_facts).parameters) >= 2 else self.post_facts(v0)
+            for ax in facts:
                 o.path.assume(ax)
         if o.kind == "return":
             res = o.value
@@ -392,8 +398,21 @@ def verify(contract: Contract, tier="quick", callee_contracts=None) -> list[OR]:
     try:
         vcs = eng.run()
     except EngineError as e:
-        return [OR(id=f"{contract.prop}.A.{contract.qualname}.subset", status=UNKNOWN, kind="A", target=target, role="guard",
-                   desc="function within Engine A's subset", detail=f"out of reach: {e}")]
+        out = [OR(id=f"{contract.prop}.A.{contract.qualname}.subset", status=UNKNOWN, kind="A", target=target, role="guard",
+                  desc="function within Engine A's subset", detail=f"out of reach: {e}")]
+        # the function left the verifier's reach: the bounded stand-in takes over (it can refute, it cannot prove)
+        if contract.search_fn is not None:
+            t1 = time.time()
+            try:
+                hit = contract.search_fn()
+            except Exception as ex:
+                hit = None
+            if hit:
+                out.append(OR(id=f"{contract.prop}.Bd.{contract.qualname}.standin", status=REFUTED, kind="Bd", target=target, role="bounded",
+                              desc="bounded stand-in (function out of Engine A's reach): real function vs executable contract",
+                              witness=hit.get("input"), replay=hit, seconds=time.time() - t1, backend="enumeration",
+                              bound="see contract search_fn"))
+        return out
     gen_s = time.time() - t0
     results: list[OR] = []
     prefix = f"{contract.prop}.A.{contract.qualname}"
